@@ -318,6 +318,29 @@ def tbl4_decode_siblings(ctx):
                                                         'decodes compressed bytes and panics' % raw
                                                      if reads_raw else 'the section stack'),
                   'src/%s:%d' % (f, arm['l']))
+    # null map: in the codecs the builders produce, element-wise ops follow `Nullable`
+    # (`[PushDataSection(1), Nullable, ToI64(t)]`, `[.., Nullable, Add(t, off)]`, nullable
+    # dictionaries `[PushDataSection(3), Nullable, .., DictLookup]`); their arms build plain
+    # vectors, so either each of them re-attaches the map or decode attaches it after the loop
+    follow = _ops_following_nullable(ast)
+    ctx.require(follow, 'TBL-4: no builder codec places an op after CodecOp::Nullable (anchor)')
+    loops = [n for n in walk(dec['body']) if isinstance(n, dict) and n.get('k') == 'for'
+             and any(m.get('method') == 'ops' for m in find(n['iter'], 'mcall'))]
+    ctx.require(len(loops) == 1, 'TBL-4: the loop over codec.ops() in column::decode not found')
+    loop = loops[0]
+    mk = [m for m in find(dec, 'mcall') if m['method'] == 'make_nullable']
+    after_loop = [m for m in mk if m['l'] > loop['el']]
+    per_arm = {v for v, arm in d_arms if v in follow and
+               any(m['method'] in ('make_nullable', 'is_nullable', 'cast_ref_null_map')
+                   for m in find(arm['body'], 'mcall'))}
+    okn = bool(after_loop) or per_arm >= (follow & d_all)
+    ctx.check('TBL-4', 'column::decode|null-map-survives-later-ops', okn,
+              'ops that follow Nullable in builder codecs: %s; decode re-attaches the null map %s'
+              % (sorted(follow), 'after the op loop (line %d)' % after_loop[0]['l'] if after_loop else
+                 ('in each of these arms' if okn else 'NOWHERE: the arms of %s return plain vectors, '
+                  'compaction turns NULL into 0 / "" / the first dictionary entry'
+                  % sorted((follow & d_all) - per_arm))),
+              'src/%s:%d' % (f, loop['l']))
     # compression x element type
     for comp, fn_name in (('LZ4', 'DataSection::lz4_decode'), ('Pco', 'DataSection::pco_decode')):
         cold = ast.fn(fn_name, f)
@@ -329,6 +352,45 @@ def tbl4_decode_siblings(ctx):
                       '%s-compressed %s sections can be produced (lz4_or_pco_encode tags the section '
                       'type) and are decoded by %s; compaction decode: %s'
                       % (comp, t, fn_name, 'ok' if t in have else 'panics'), 'src/' + f)
+
+
+def _ops_following_nullable(ast):
+    """CodecOp variants that occur after `CodecOp::Nullable` in a codec built by the column
+    builders: literal `vec![..]` lists, and `codec.insert(i, CodecOp::Nullable)` in front of the
+    ops of the codec being extended."""
+    out = set()
+    for (p, q, n) in ast.fns:
+        if not re.search(r'src/mem_store/(integers|floats|strings|column|mixed_column|raw_col)\.rs$', p):
+            continue
+        body = n.get('body')
+        if not body:
+            continue
+        for m in find(body, 'macro'):
+            if m.get('path') != 'vec':
+                continue
+            names = []
+            for a in m.get('args', []):
+                pth = a.get('path') if a.get('k') == 'path' else (a.get('func') or {}).get('path') \
+                    if a.get('k') == 'call' else None
+                names.append(last_seg(pth) if pth and 'CodecOp' in pth else None)
+            if 'Nullable' in names:
+                out |= {x for x in names[names.index('Nullable') + 1:] if x}
+        for m in find(body, 'mcall'):
+            if m['method'] == 'insert' and len(m['args']) == 2 and \
+                    (m['args'][1].get('path') or '').endswith('CodecOp::Nullable'):
+                # the codec being extended: ops of every `*_codec(..)` helper / vec! in this fn
+                for c in find(body, 'call'):
+                    fn_ = (c.get('func') or {}).get('path', '')
+                    if fn_.endswith('_codec'):
+                        for (p2, q2, n2) in ast.find_fns(last_seg(fn_)):
+                            for mm in find(n2.get('body') or {}, 'macro'):
+                                for a in mm.get('args', []):
+                                    pth = (a.get('func') or {}).get('path') if a.get('k') == 'call' else a.get('path')
+                                    if pth and 'CodecOp' in pth:
+                                        out.add(last_seg(pth))
+    out.discard('Nullable')
+    out.discard('PushDataSection')   # a stack operation, produces no data
+    return out
 
 
 def _own_body(body):
@@ -666,3 +728,116 @@ def ord13_sort_structure(ctx):
     ctx.check('ORD-13', 'run|sort-key-order-preserving', ok2,
               'the key that is sorted is the result of order_preserving(..) (decoded unless the codec '
               'preserves order)', where(ops[0][1]) if ops else None)
+
+
+# ------------------------------------------------------------------------------------ NUL-1
+def ord13_top_n_limit_zero(ctx):
+    """ORD-13 clause: LIMIT 0 is a valid request; the top-n operator reads the heap root
+    `keys[0]`, which does not exist when n = 0."""
+    P = ctx.P
+    st = ctx.ast.struct('TopN', 'operators/top_n.rs')
+    fnames = [f['name'] for f in st['fields']]
+    nidx = fnames.index('n')
+    cands = [b for b in P.fn_bodies() if b.crate == 'locustdb' and re.search(r'top_n::<TopN<.*> as VecOperator<.*>>::execute$', b.name)]
+    ctx.require(len(cands) == 1, 'ORD-13: TopN::execute not found (%d)' % len(cands))
+    F = cands[0]
+    F.parse()
+    cfg = CFG(F)
+    du = DefUse(F)
+    # successor blocks on which n != 0 is known
+    nonzero = []
+    for bid, blk in F.blocks.items():
+        t = blk.term
+        if blk.cleanup or t is None or t.kind != 'switch':
+            continue
+        d = du.single_def(base_local(t.discr)) if base_local(t.discr) is not None else None
+        if not d or d[1] != 'stmt':
+            continue
+        m = re.match(r'^(Eq|Ne|Gt|Lt|Ge|Le)\((.*), (.*)\)$', d[2].rhs.strip())
+        if not m:
+            continue
+        a, b_ = m.group(2).strip(), m.group(3).strip()
+
+        def is_n(op):
+            if op.startswith('const'):
+                return False
+            root, steps = du.access_path(op)
+            return root[0] == 'arg' and steps[-1:] == [nidx]
+        zero = lambda op: re.match(r'^const 0_usize$', op) is not None
+        tg = dict(t.targets)
+        op = m.group(1)
+        if (is_n(a) and zero(b_)) or (is_n(b_) and zero(a)):
+            if op == 'Eq':
+                nonzero.append(tg.get('0'))
+            elif op == 'Ne' or (op == 'Gt' and is_n(a)) or (op == 'Lt' and is_n(b_)):
+                nonzero.append(tg.get('otherwise', tg.get('1')))
+    nonzero = [x for x in nonzero if x is not None]
+    sites = []
+    for blk, t in F.calls():
+        if blk.cleanup:
+            continue
+        if re.search(r'Index<usize>>::index$|IndexMut<usize>>::index_mut$', (t.func or '')) and \
+                len(t.args) == 2 and t.args[1].strip() == 'const 0_usize':
+            sites.append((blk, t))
+    ctx.require(sites, 'ORD-13: TopN::execute does not read the heap root keys[0] (anchor)')
+    for i, (blk, t) in enumerate(sites):
+        ok = any(cfg.dominates(nz, blk.id) for nz in nonzero)
+        ctx.check('ORD-13', 'TopN::execute|heap-root-only-when-n-positive%s' % ('' if i == 0 else '#%d' % (i + 1)), ok,
+                  'the heap root is read only after n = 0 was excluded (LIMIT 0 with ORDER BY on one '
+                  'key otherwise panics the worker: index out of bounds)', where(t))
+
+
+def nul1_null_map_never_ignored(ctx):
+    ctx.rule('NUL-1', 'a null map handed to the column builder is never ignored: the three typed '
+                      'push functions forward it, and the bitmap routine can create the bitmap '
+                      'when the builder has none yet (first nullable chunk of a merge)', floor=4)
+    P = ctx.P
+    st = ctx.ast.struct('ColumnBuffer', 'mem_store/column_buffer.rs')
+    fnames = [f['name'] for f in st['fields']]
+    ctx.require('present' in fnames, 'NUL-1: ColumnBuffer has no field `present`')
+    pidx = fnames.index('present')
+    PP = P.one('ColumnBuffer::push_present')
+    PP.parse()
+    dup = DefUse(PP)
+    creates = False
+    site = PP.blocks[0].term
+    for bid, blk in PP.parse().blocks.items():
+        if blk.cleanup:
+            continue
+        for s_ in blk.stmts:
+            if s_.kind == 'assign' and re.match(r'^\(\(\*_1\)\.%d: ' % pidx, s_.lhs.strip()):
+                some = 'Some(' in s_.rhs
+                l_ = base_local(s_.rhs)
+                if not some and l_ is not None:
+                    some = any('::Some(' in st_.rhs for (_b, st_) in dup.origins(l_)['stmts'])
+                if some:
+                    creates = True
+                    site = s_
+        t = blk.term
+        if t is not None and t.kind == 'call' and norm_callee(t.func or '').endswith('ColumnBuffer::init_present'):
+            creates = True
+            site = t
+    ctx.check('NUL-1', 'ColumnBuffer::push_present|creates-bitmap', creates,
+              'push_present can create the bitmap (assigns Some(..) to `present` or calls '
+              'init_present): %s' % ('yes' if creates else 'NO - when the builder has no bitmap yet, the null map of '
+                                     'the pushed chunk is dropped and its NULLs become 0 / "" after compaction'),
+              where(site))
+    n = 0
+    for b in P.fn_bodies():
+        if b.crate != 'locustdb' or not re.search(r'ColumnBuffer::push_(ints|floats|strings)$', b.name.split('<')[0] if False else b.name):
+            continue
+        opt_args = [ln for (ln, ty) in b.args if 'Option<&' in ty and '[u8]' in ty]
+        if not opt_args:
+            continue
+        n += 1
+        du = DefUse(b)
+        fw = False
+        for blk, t in b.calls():
+            if not blk.cleanup and norm_callee(t.func or '').endswith('ColumnBuffer::push_present') and len(t.args) > 1:
+                org = du.origins(base_local(t.args[1]))
+                if set(opt_args) & org['args'] or base_local(t.args[1]) in opt_args:
+                    fw = True
+                    site = t
+        ctx.check('NUL-1', '%s|forwards-null-map' % b.name, fw,
+                  'the `present` argument reaches push_present', where(site))
+    ctx.require(n >= 3, 'NUL-1: fewer than 3 typed push functions with a null-map parameter (%d)' % n)
